@@ -239,12 +239,36 @@ def Cached.getAges (c : Cached) : Cached :=
   | some _ => if c.countedForSummaries != c.sd.total then { c with ages := some () } else c
   | none => { c with ages := some () }
 
+/-! ### `SplitDistribution.update(other)`: merging another distribution in -/
+
+/-- `self.split_edge_lengths[split] += other.split_edge_lengths[split]` on default-dicts: the key is created even for an empty list -/
+def appendLens (d : List (Int × List Rat)) (k : Int) (l : List Rat) : List (Int × List Rat) :=
+  match d with
+  | [] => [(k, l)]
+  | (k', v) :: rest => if k' == k then (k', v ++ l) :: rest else (k', v) :: appendLens rest k l
+
+/-- `update`: totals and weight sums add, rooting states unite, and for every split of `other.split_counts` (its order) the count is
+    added and the value list appended -/
+def mergeSD (a b : SD) : SD :=
+  { a with
+    total := a.total + b.total
+    sumW := a.sumW + b.sumW
+    rootings := b.rootings.foldl (fun r x => if r.contains x then r else r ++ [x]) a.rootings
+    counts := b.counts.foldl (fun d p => addCount d p.1 p.2) a.counts
+    lengths := b.counts.foldl (fun d p => appendLens d p.1 ((lookupIn b.lengths p.1).getD [])) a.lengths }
+
+/-- `update` through the caches: both summary tables are dropped and their counter reset; the frequency table is NOT touched (it is
+    recognised as stale by its counter) -/
+def Cached.merge (c : Cached) (b : SD) : Cached :=
+  { c with sd := mergeSD c.sd b, summaries := none, ages := none, countedForSummaries := 0 }
+
 /-- one step of a client's history -/
 inductive Ev where
   | add (t : TreeRec)          -- count one more tree
   | freq (s : Int)             -- `sd[s]`
   | summ (s : Int)             -- `sd.split_edge_length_summaries.get(s)`
   | ages                       -- `sd.split_node_age_summaries` read (answer not modelled)
+  | merge (ts : List TreeRec)  -- `update(other)` with another distribution (same weight flag) that counted `ts`
   | refused (t : TreeRec)      -- an offer the library REFUSES (exception caught by the caller, who carries on): nothing may change
 
 inductive Ans where
@@ -257,6 +281,7 @@ def Cached.step (c : Cached) : Ev → Cached × Option Ans
   | .summ s => let r := c.getSummaries; (r.1, some (.summ (lookupIn r.2 s)))
   | .ages => (c.getAges, none)
   | .refused _ => (c, none)
+  | .merge ts => (c.merge (countAll c.sd.useWeights ts), none)
 
 /-- the answers a client sees over a history, through the caches -/
 def Cached.run (c : Cached) : List Ev → List Ans
@@ -273,6 +298,7 @@ def specRun (sd : SD) : List Ev → List Ans
   | .summ s :: es => .summ (lookupIn (summaryTable sd) s) :: specRun sd es
   | .ages :: es => specRun sd es
   | .refused _ :: es => specRun sd es
+  | .merge ts :: es => specRun (mergeSD sd (countAll sd.useWeights ts)) es
 
 /-! ### rooting refusals of `collapse_edges_with_less_than_minimum_support` -/
 
